@@ -833,11 +833,33 @@ class TomlParser:
             if "action" in field.metadata
         }
 
+        config_fields = {field.name: field for field in fields(Config)}
+
         result = {}
         for key, value in data.items():
             key = key.replace("-", "_")
             action = actions.get(key)
-            result[key] = action.parse(value) if action else value
+            if action:
+                result[key] = action.parse(value)
+                continue
+
+            # options without a value grammar of their own: the TOML value must have the type of the option
+            # (a string such as "false" must not be stored for a flag, where it would read as true)
+            field = config_fields.get(key)
+            if field is not None and field.type in (bool, int, str):
+                well_typed = isinstance(value, field.type) and not (
+                    field.type is int and isinstance(value, bool)
+                )
+                choices = field.metadata.get("choices")
+                if not well_typed or (choices and value not in choices):
+                    expected = f"one of {choices}" if choices else field.type.__name__
+                    warn(
+                        f"error: invalid value for `{key}` in the toml file: "
+                        f"expected {expected}, got {value!r}"
+                    )
+                    sys.exit(2)
+
+            result[key] = value
         return result
 
 
